@@ -202,6 +202,35 @@ impl<'a, 'tcx> BodyCx<'a, 'tcx> {
                     if len >= off && len - off <= 4096 && a.provenance().ptrs().is_empty() {
                         let bytes = a.inspect_with_uninit_and_ptr_outside_interpreter(off..len);
                         o.push(("bytes", J::Arr(bytes.iter().map(|b| J::n(*b as i128)).collect())));
+                    } else if len >= off + 16 {
+                        // wide pointer (&[u8] / &str) stored in memory: (ptr, len)
+                        let is_bytes = matches!(ty.kind(), ty::Ref(_, inner, _) if inner.is_str() || matches!(inner.kind(), ty::Slice(e) if *e == tcx.types.u8));
+                        if is_bytes {
+                            let raw = a.inspect_with_uninit_and_ptr_outside_interpreter(off..off + 16);
+                            let mut p8 = [0u8; 8];
+                            p8.copy_from_slice(&raw[0..8]);
+                            let inner_off = u64::from_le_bytes(p8) as usize;
+                            p8.copy_from_slice(&raw[8..16]);
+                            let n = u64::from_le_bytes(p8) as usize;
+                            for (poff, prov) in a.provenance().ptrs().iter() {
+                                if poff.bytes_usize() == off {
+                                    if let Some(rustc_middle::mir::interpret::GlobalAlloc::Memory(t)) =
+                                        tcx.try_get_global_alloc(prov.alloc_id())
+                                    {
+                                        let t = t.inner();
+                                        if inner_off + n <= t.len() && n <= 8192 {
+                                            let bytes = t.inspect_with_uninit_and_ptr_outside_interpreter(inner_off..inner_off + n);
+                                            if let ty::Ref(_, inner, _) = ty.kind() {
+                                                if inner.is_str() {
+                                                    o.push(("str", J::s(String::from_utf8_lossy(bytes).to_string())));
+                                                }
+                                            }
+                                            o.push(("bytes", J::Arr(bytes.iter().map(|b| J::n(*b as i128)).collect())));
+                                        }
+                                    }
+                                }
+                            }
+                        }
                     }
                 }
             }
